@@ -101,6 +101,15 @@ def gen_scenario(rng):
                           "k_retrieval": rng.choice([2, 4, 8]), "sim_threshold": -1.0, "owner_scope": "any", "exact_recent_days": 30})
         if not cfg["t3"].get("dialogue"):
             cfg["t3"]["dialogue"] = {"template": "{snippets_text}; {labels} -> {intent}", "include_top_k_snippets": 3}
+    if rng.random() < 0.15:
+        # tier-walk class: a small k, memories of mixed age and a tier list in which a tier is repeated - which tier is walked
+        # first decides what is retrieved
+        tl = rng.sample(["exact_semantic", "cluster_semantic", "archive"], rng.randint(2, 3))
+        cfg["t2"].update({"tiers": tl + [rng.choice(tl)], "k_retrieval": rng.choice([1, 2, 2]), "sim_threshold": -1.0, "owner_scope": "any", "exact_recent_days": 30})
+        for j, e in enumerate(world["eps"]):
+            e["ts"] = ["2023-11-10T00:00:00Z", "2021-06-01T00:00:00Z", "2022-01-15T00:00:00Z"][j % 3]
+        if not cfg["t3"].get("dialogue"):
+            cfg["t3"]["dialogue"] = {"template": "{snippets_text}; {labels} -> {intent}", "include_top_k_snippets": 3}
     if rng.random() < 0.25:
         # the same request repeated (same agent, text, logical time) with the stage caches on: the hit paths run
         for t in turns[1:]:
